@@ -788,7 +788,8 @@ func castArr(opts *options, v value) ([]value, Error) {
 		}
 		opts.activeFields = active
 		if err != nil {
-			return nil, raiseMissingMsg(ref.ctx.getParent(), ref.ctx.field, err.Error())
+			// the failing setting is ref itself: its path, its source
+			return nil, raisePathErr(ErrMissing, ref.meta(), err.Error(), ref.ctx.path("."))
 		}
 
 		if sub, ok := unrefed.(cfgSub); ok {
